@@ -209,6 +209,7 @@ fn placeholder_ring() -> super::SimRing {
         sq_entries: 1,
         cq_entries: 1,
         layout: super::Layout::KERNEL_6_18,
+        sq_array_off: None,
         params_in: Params::default(),
         mem: std::ptr::null_mut(),
         mem_len: 0,
